@@ -16,7 +16,9 @@
 #include <algorithm>
 #include <atomic>
 #include <cstdio>
+#include <chrono>
 #include <cstdlib>
+#include <unistd.h>
 #include <deque>
 #include <fstream>
 #include <functional>
@@ -85,7 +87,14 @@ struct Trk {
     friend bool operator<(const Trk& a, const Trk& b) { return a.key() < b.key(); }
 };
 
+// trivially copyable (key, original index): the element kind for which "optimised" block copies would be legal
+struct PodKV { int key; int idx; };
+inline bool operator<(const PodKV& a, const PodKV& b) { return a.key < b.key; }
+static_assert(std::is_trivially_copyable<PodKV>::value, "PodKV must be trivially copyable");
+
 int key_of(const int& x) { return x; }
+int key_of(const PodKV& x) { return x.key; }
+int idx_of(const PodKV& x) { return x.idx; }
 int key_of(const Pair& x) { return x.key; }
 int key_of(const Trk& x) { return x.key(); }
 int idx_of(const int&) { return -1; }
@@ -108,26 +117,38 @@ template <typename T> T make_elem(int k, int i);
 template <> int make_elem<int>(int k, int) { return k; }
 template <> Pair make_elem<Pair>(int k, int i) { return Pair(k, i); }
 template <> Trk make_elem<Trk>(int k, int i) { return Trk(k, i); }
+template <> PodKV make_elem<PodKV>(int k, int i) { return PodKV{k, i}; }
 
-template <typename C> typename C::value_type* pick_begin(C& v, std::true_type) { return v.empty() ? nullptr : &v[0]; }
-template <typename C> typename C::iterator pick_begin(C& v, std::false_type) { return v.begin(); }
-// containers may copy / relocate elements while they are filled: start every case with clean writer tags
-template <typename C> void reset_tags(C&, int*) {}
-template <typename C> void reset_tags(C&, Trk*) {}
-template <typename C> void reset_tags(C& v, Pair*) {
-    for (auto& x : v) { x.writer = std::this_thread::get_id(); x.writes = 0; }
+// iterator kinds over a container holding G guard cells, the n elements, G guard cells:
+//   'v' std::vector<T>::iterator, 'p' T*, 'd' std::deque<T>::iterator (blocks: not contiguous),
+//   'r' std::vector<T>::reverse_iterator (v.rbegin() ...: descending addresses), 'q' std::reverse_iterator<T*>
+template <char IterK, typename C> struct RangeOf;
+template <typename C> struct RangeOf<'v', C> { using It = typename C::iterator;
+    static It begin(C& v, size_t g, size_t) { return v.begin() + static_cast<std::ptrdiff_t>(g); } };
+template <typename C> struct RangeOf<'d', C> { using It = typename C::iterator;
+    static It begin(C& v, size_t g, size_t) { return v.begin() + static_cast<std::ptrdiff_t>(g); } };
+template <typename C> struct RangeOf<'p', C> { using It = typename C::value_type*;
+    static It begin(C& v, size_t g, size_t) { return v.empty() ? nullptr : &v[0] + g; } };
+template <typename C> struct RangeOf<'r', C> { using It = typename C::reverse_iterator;
+    static It begin(C& v, size_t g, size_t) { return v.rbegin() + static_cast<std::ptrdiff_t>(g); } };
+template <typename C> struct RangeOf<'q', C> { using It = std::reverse_iterator<typename C::value_type*>;
+    static It begin(C& v, size_t g, size_t n) { return It(v.empty() ? nullptr : &v[0] + g + n); } };
+
+// start every case with clean writer tags (filling the container assigns / copies elements)
+template <typename It> void reset_tags(It, size_t, int*) {}
+template <typename It> void reset_tags(It, size_t, Trk*) {}
+template <typename It> void reset_tags(It, size_t, PodKV*) {}
+template <typename It> void reset_tags(It b, size_t n, Pair*) {
+    for (size_t i = 0; i < n; ++i) { b[i].writer = std::this_thread::get_id(); b[i].writes = 0; }
 }
-template <char IterK, typename C>
-auto begin_of(C& v) -> typename std::conditional<IterK == 'p', typename C::value_type*, typename C::iterator>::type {
-    return pick_begin(v, std::integral_constant<bool, IterK == 'p'>());
-}
-template <typename C> std::string windows_of(const C&, int*) { return "-"; }
-template <typename C> std::string windows_of(const C&, Trk*) { return "-"; }
-template <typename C> std::string windows_of(const C& v, Pair*) {
+template <typename It> std::string windows_of(It, size_t, int*) { return "-"; }
+template <typename It> std::string windows_of(It, size_t, Trk*) { return "-"; }
+template <typename It> std::string windows_of(It, size_t, PodKV*) { return "-"; }
+template <typename It> std::string windows_of(It v, size_t n, Pair*) {
     // every position assigned exactly once, by a worker thread; maximal runs of equal writer = windows
     std::vector<int> w;
     const std::thread::id me = std::this_thread::get_id();
-    for (size_t i = 0; i < v.size(); ++i) {
+    for (size_t i = 0; i < n; ++i) {
         if (v[i].writer == me) {
             if (v[i].writes != 0) return "BADMAIN@" + std::to_string(i);
             continue;
@@ -148,7 +169,8 @@ struct NdcLess {
 
 // One API variant = container / iterator kind, comparator kind, entry point, number of arguments passed.
 //   entry  'a' = tlx::parallel_mergesort / tlx::stable_parallel_mergesort, 'b' = tlx::parallel_mergesort_base<Stable>
-//   iter   'v' = std::vector<T>::iterator, 'p' = T*, 'd' = std::deque<T>::iterator
+//   iter   'v' = std::vector<T>::iterator, 'p' = T*, 'd' = std::deque<T>::iterator, 'r' = std::vector<T>::reverse_iterator,
+//          'q' = std::reverse_iterator<T*>
 //   cmp    'k' = KeyLess (aggregate with state), 'n' = NdcLess (no default constructor), 'l' = lambda closure,
 //          '-' = none passed (Comparator() = std::less<T> = the element's operator<)
 //   nargs  2 = (begin, end), 3 = + comp, 4 = + num_threads, 5 = + mwmsa; arguments not passed take their defaults
@@ -177,16 +199,20 @@ std::string run_case(bool sampling, bool greater, size_t p, size_t os, const std
     auto& L = MtLedger::get();
     size_t live_before; long err_before;
     { std::lock_guard<std::mutex> g(L.m); live_before = L.live.size(); err_before = L.errors; }
-    std::string out;
+    std::string out, tail;
     long leak = 0, errs = 0;
     {
+        // guard cells around the range for the non-default iterator kinds and the trivially copyable element type
+        constexpr size_t G = (IterK == 'r' || IterK == 'q' || IterK == 'd' || std::is_same<T, PodKV>::value) ? 3 : 0;
+        const size_t n = keys.size();
         C v;
-        for (size_t i = 0; i < keys.size(); ++i) v.push_back(make_elem<T>(keys[i], static_cast<int>(i)));
-        reset_tags(v, static_cast<T*>(nullptr));
+        for (size_t i = 0; i < n + 2 * G; ++i) v.push_back(make_elem<T>(900000 + static_cast<int>(i), -7));
+        auto bg = RangeOf<IterK, C>::begin(v, G, n); auto en = bg + static_cast<std::ptrdiff_t>(n);
+        for (size_t i = 0; i < n; ++i) bg[i] = make_elem<T>(keys[i], static_cast<int>(i));
+        reset_tags(bg, n, static_cast<T*>(nullptr));
         size_t live_in;
         { std::lock_guard<std::mutex> g(L.m); live_in = L.live.size(); }
         tlx::MultiwayMergeSplittingAlgorithm a = sampling ? tlx::MWMSA_SAMPLING : tlx::MWMSA_EXACT;
-        auto bg = begin_of<IterK>(v); auto en = bg + static_cast<std::ptrdiff_t>(v.size());
         if constexpr (CmpK == '-') {
             if constexpr (Stable) tlx::stable_parallel_mergesort(bg, en); else tlx::parallel_mergesort(bg, en);
         } else if constexpr (CmpK == 'n') {
@@ -199,13 +225,22 @@ std::string run_case(bool sampling, bool greater, size_t p, size_t os, const std
         }
         { std::lock_guard<std::mutex> g(L.m); leak = static_cast<long>(L.live.size()) - static_cast<long>(live_in); }
         std::vector<int> ks, is;
-        for (const T& x : v) ks.push_back(key_of(x));
-        std::string win = windows_of(v, static_cast<T*>(nullptr));
+        for (size_t i = 0; i < n; ++i) ks.push_back(key_of(bg[i]));
+        std::string win = windows_of(bg, n, static_cast<T*>(nullptr));
+        std::string guard;
+        for (size_t i = 0; i < n + 2 * G; ++i) {
+            if (i >= G && i < G + n) { if (IterK == 'r' || IterK == 'q') continue; }
+            // (for the reversed kinds the range occupies the same middle cells; v[] is in memory order)
+            if (i >= G && i < G + n) continue;
+            if (key_of(v[i]) != 900000 + static_cast<int>(i) || idx_of(v[i]) != (std::is_same<T, int>::value ? -1 : -7)) {
+                guard = " GUARD-OVERWRITTEN@" + std::to_string(i); break;
+            }
+        }
         if (!Stable) {
             // canonicalise what the property leaves open: order of the indices inside a group of equal keys
             // (only if the keys are in order; otherwise the raw arrangement is shown)
             std::vector<std::pair<int, int> > kv;
-            for (const T& x : v) kv.emplace_back(key_of(x), idx_of(x));
+            for (size_t q = 0; q < n; ++q) kv.emplace_back(key_of(bg[q]), idx_of(bg[q]));
             size_t i = 0;
             while (i < kv.size()) {
                 size_t j = i;
@@ -215,9 +250,10 @@ std::string run_case(bool sampling, bool greater, size_t p, size_t os, const std
             }
             for (auto& x : kv) is.push_back(x.second);
         } else {
-            for (const T& x : v) is.push_back(idx_of(x));
+            for (size_t q = 0; q < n; ++q) is.push_back(idx_of(bg[q]));
         }
         out = "keys=" + join(ks) + " ord=" + (std::is_same<T, int>::value ? std::string("-") : join(is)) + " win=" + win;
+        tail = guard;
     }
     {
         std::lock_guard<std::mutex> g(L.m);
@@ -229,7 +265,25 @@ std::string run_case(bool sampling, bool greater, size_t p, size_t os, const std
     }
     out += " leak=" + std::to_string(leak) + " err=" + std::to_string(errs);
     if (errs) out += " first_error=" + L.first_error, L.first_error.clear();
-    return out;
+    return out + tail;
+}
+
+// A case that produces no result within the limit (a deadlock in the sort: the main thread sits in join()) is reported
+// on stdout with its case line and the process ends: the check turns this into a violation with that input.
+std::mutex g_wd_m;
+std::string g_wd_case;
+std::chrono::steady_clock::time_point g_wd_deadline;
+bool g_wd_armed = false;
+void watchdog(int limit_s) {
+    for (;;) {
+        std::this_thread::sleep_for(std::chrono::milliseconds(200));
+        std::lock_guard<std::mutex> g(g_wd_m);
+        if (g_wd_armed && std::chrono::steady_clock::now() > g_wd_deadline) {
+            printf("C06-WATCHDOG no result after %d s: %s\n", limit_s, g_wd_case.c_str());
+            fflush(stdout);
+            _exit(3);
+        }
+    }
 }
 
 } // namespace
@@ -237,6 +291,8 @@ std::string run_case(bool sampling, bool greater, size_t p, size_t os, const std
 int main(int argc, char** argv) {
     if (argc < 2) { fprintf(stderr, "usage: %s casefile | --hw\n", argv[0]); return 2; }
     if (std::string(argv[1]) == "--hw") { printf("%u\n", std::thread::hardware_concurrency()); return 0; }
+    const int limit_s = getenv("C06_CASE_TIMEOUT") ? atoi(getenv("C06_CASE_TIMEOUT")) : 20;
+    std::thread(watchdog, limit_s).detach();
     std::ifstream in(argv[1]);
     std::string line;
     while (std::getline(in, line)) {
@@ -251,6 +307,8 @@ int main(int argc, char** argv) {
             std::string tok;
             while (std::getline(ks, tok, ',')) keys.push_back(atoi(tok.c_str()));
         }
+        { std::lock_guard<std::mutex> g(g_wd_m); g_wd_case = line; g_wd_armed = true;
+          g_wd_deadline = std::chrono::steady_clock::now() + std::chrono::seconds(limit_s); }
         std::string variant = "avk5";
         ss >> variant;
         bool stable = stab == "S", sampling = split == "X", greater = cmp == "G";
@@ -268,12 +326,19 @@ int main(int argc, char** argv) {
         V("pair", "S", Pair, true, 'a', 'p', 'k', 5) V("pair", "U", Pair, false, 'a', 'd', 'k', 5)
         V("pair", "S", Pair, true, 'a', 'v', 'n', 5) V("pair", "U", Pair, false, 'a', 'v', 'l', 5)
         V("trk", "S", Trk, true, 'a', 'd', 'n', 5) V("int", "U", int, false, 'a', 'v', '-', 2)
+#elif C06_SET == 3
+        // iterator kinds that are not contiguous-ascending, trivially copyable and non-trivial element types
+        V("pod", "S", PodKV, true, 'a', 'r', 'k', 5) V("pod", "U", PodKV, false, 'a', 'q', 'k', 5)
+        V("pod", "S", PodKV, true, 'a', 'd', 'k', 5) V("pod", "U", PodKV, false, 'a', 'v', 'k', 5)
+        V("int", "U", int, false, 'a', 'd', 'k', 5) V("int", "S", int, true, 'a', 'r', 'k', 5)
+        V("pair", "U", Pair, false, 'a', 'r', 'k', 5) V("trk", "S", Trk, true, 'a', 'q', 'k', 5)
 #else
         V("pair", "S", Pair, true, 'a', 'v', 'k', 4) V("pair", "U", Pair, false, 'a', 'v', 'k', 3)
         V("pair", "S", Pair, true, 'a', 'v', '-', 2) V("pair", "U", Pair, false, 'b', 'v', 'k', 5)
         V("pair", "S", Pair, true, 'b', 'd', 'l', 4) V("trk", "U", Trk, false, 'b', 'p', 'n', 3)
 #endif
 #undef V
+        { std::lock_guard<std::mutex> g(g_wd_m); g_wd_armed = false; }
         std::cout << out << std::endl; // flushed: the last line printed identifies a crashing case
     }
     return 0;
